@@ -46,9 +46,13 @@ class DiskObserver(SearchRecorder):
         self.path = path
         self.expect_fn = expect_fn
         self.sidelog = sidelog
+        self.aggs = []          # maximising aggregates of everything registered so far, in order (the observed history)
 
     def register(self, tracker, individual, problem, is_best):
         exp = self.expect_fn(individual, problem)
+        agg = int(individual.get_fitness(problem).maximizing_aggregate)
+        prev = list(self.aggs)
+        self.aggs.append(agg)
         if self.sidelog is not None:
             # SIGKILL mode: only log what was registered (fsync'd), the parent reads the file afterwards
             self.sidelog.write(json.dumps({"expect": exp, "isbest": bool(is_best)}) + "\n")
@@ -56,7 +60,8 @@ class DiskObserver(SearchRecorder):
             os.fsync(self.sidelog.fileno())
             return
         rows, partial = read_disk(self.path)
-        self.events.append({"e": "registered", "isbest": bool(is_best), "expect": exp, "disk": rows, "partial": partial})
+        self.events.append({"e": "registered", "isbest": bool(is_best), "expect": exp, "disk": rows, "partial": partial,
+                            "agg": agg, "prev": prev})
 
 
 def build(path, nobj, mode, onlybest, nextra, via, events, sidelog=None):
